@@ -63,6 +63,8 @@ func main() {
 		genOptics(&out, files)
 	case "shape":
 		genShape(&out, files)
+	case "fold":
+		genFold(&out, files)
 	default:
 		fmt.Fprintln(os.Stderr, "go2coq: unknown mode "+os.Args[1])
 		os.Exit(2)
